@@ -116,6 +116,12 @@ def gen_valid_doc(rng):
     os_l = rng.sample(["linux", "windows", "bsd", "os_0"], rng.randint(1, 3))
     svc_l = rng.sample(["ssh", "ftp", "http", "samba", "smtp", "80"], rng.randint(1, 4))
     proc_l = rng.sample(["tomcat", "daclsvc", "schtask", "cron"], rng.randint(1, 3))
+    if rng.random() < 0.3:
+        # the same name may denote a service and a process (e.g. a database daemon)
+        shared = rng.choice(["mysql", "ssh"])
+        if shared not in svc_l:
+            svc_l.append(shared)
+        proc_l.append(shared)
     addrs = [(s + 1, h) for s, size in enumerate(sizes) for h in range(size)]
     sens_addrs = rng.sample(addrs, rng.randint(1, min(2, len(addrs))))
     sens_vals = {a: rng.choice([100, 10, 1, 0.5, 37.25, 200.0]) for a in sens_addrs}
@@ -351,7 +357,7 @@ def catalogue():
         cfg = d["host_configurations"][_some_host(d, r)]
         n = len(d["subnets"])
         svc = d["services"][0]
-        cfg["firewall"] = r.choice([[1], "x", 3,
+        cfg["firewall"] = r.choice([[1], "x", 3, [], None, "", 0, False, 0.0,
                                     {"(0, 0)": [svc]}, {f"({n + 1}, 0)": [svc]}, {f"(1, {d['subnets'][0]})": [svc]},
                                     {"(1, 0)": svc}, {"(1, 0)": None}, {"(1, 0)": ["nonexistent"]},
                                     {"(1, 0)": [svc, svc]}, {"notanaddress": [svc]}, {"(1, 0, 0)": [svc]},
@@ -481,6 +487,7 @@ def run_batch(args):
         out = C.run_driver([r for r in reqs if r is not None])
         it = iter(out)
         first_valid_sc = None
+        sc_cases = []
         for (kind, rname, doc), req, (ok, text, sc) in zip(cases, reqs, impl):
             if req is None:
                 continue
@@ -512,6 +519,8 @@ def run_batch(args):
                         replay=replay))
                 if ok:
                     res["accepted"] += 1
+                    if m_ok:
+                        sc_cases.append((rname, doc, req, sc))
                     if first_valid_sc is None and rname.startswith("random"):
                         first_valid_sc = (doc, sc)
             else:
@@ -532,6 +541,27 @@ def run_batch(args):
                         replay=replay))
                 else:
                     res["rejected"] += 1
+        # document -> scenario the environment runs: load + toScenario (names -> indices, units,
+        # host order, default bounds) vs the wire form of the implementation's Scenario object
+        want = []
+        for rname, doc, req, sc in sc_cases:
+            try:
+                want.append(" ; ".join(C.scenario_lines(sc)))
+            except C.Untranslatable:
+                want.append(None)
+        todo = [(c, w) for c, w in zip(sc_cases, want) if w is not None]
+        if todo:
+            got = C.run_driver(["DOCSC" + c[2][3:] for c, _ in todo])
+            res["scenario_chain"] = len(todo)
+            for ((rname, doc, req, sc), w), g in zip(todo, got):
+                if g != "ok ; " + w:
+                    gl, wl = g.split(" ; ")[1:], w.split(" ; ")
+                    first = next((f"{a!r} vs {b!r}" for a, b in zip(gl, wl) if a != b), f"{len(gl)} vs {len(wl)} lines")
+                    res["findings"].append(dict(property="C17", kind="correspondence",
+                        what=f"the scenario the environment runs for a loaded file ({rname}) differs from load + toScenario "
+                             f"of the model: {first[:200]}",
+                        replay=dict(kind="load-scenario", rule=rname, document=doc, impl_output=w[:1500],
+                                    model_output=g[:1500])))
         # end-to-end: the environment built from a loaded file behaves like the model on it
         if first_valid_sc is not None:
             import suite_dyn
@@ -551,8 +581,9 @@ def run_batch(args):
                     # a dynamics disagreement on a loaded scenario is charged to the loader only when
                     # no step predicate is violated (then it belongs to C01..C08, decided by DYN)
                     pl = C.run_driver(lines + [suite_dyn.p_request(q, rec) for q, rec, _ in bad[:50]])
-                    unexplained = [(q, rec, got) for (q, rec, got), l in zip(bad[:50], pl)
-                                   if all(v == 1 for v in C.parse_reply(l))]
+                    verdicts = [all(v == 1 for v in C.parse_reply(l)) for l in pl]
+                    # one violated step predicate anywhere explains every later drift of this exploration
+                    unexplained = [] if not all(verdicts) else list(bad[:50])
                     for q, rec, got in unexplained[:3]:
                         res["findings"].append(dict(property="C17", kind="correspondence",
                             what="the environment built from a loaded file behaves differently from the model on the "
@@ -606,6 +637,7 @@ def run(tier, seed):
                 distinct_nontrivial=len([n for n in rules if rules[n] > 0]) + len(stages),
                 rules_exercised=dict(rules), rules_never_exercised=never,
                 model_reject_stages=dict(stages),
+                scenario_chain_compared=sum(r.get("scenario_chain", 0) for r in rs),
                 end_to_end=dict(transitions=sum((r["dyn"] or {}).get("transitions", 0) for r in rs),
                                 states=sum((r["dyn"] or {}).get("states", 0) for r in rs)),
                 transitions=sum((r["dyn"] or {}).get("transitions", 0) for r in rs),
